@@ -4,8 +4,9 @@ From Coq Require Import ZArith Lia List Bool Permutation.
 From Hts Require Import Base.Prim Generated Model.Fai Proofs.FaiBase Proofs.FaiIndex.
 Open Scope Z_scope.
 
-(** Names the plain split is valid for: no double quote, TAB, CR, LF. *)
-Definition plainch (c : Z) : bool := negb (c =? 34) && negb (c =? 9) && negb (c =? 13) && negb (c =? 10).
+(** Names that survive the TAB / LF split of ReadFrom: no TAB, no LF
+    (NewIndex cuts names at white space, so it never produces others). *)
+Definition plainch (c : Z) : bool := negb (c =? 9) && negb (c =? 10).
 Definition int64 (v : Z) : Prop := - 2^63 <= v < 2^63.
 Definition good_rec (r : frec) : Prop :=
   forallb plainch (r_name r) = true /\ int64 (r_len r) /\ int64 (r_start r) /\ int64 (r_bases r) /\ int64 (r_bytes r)
@@ -159,10 +160,11 @@ Proof.
   rewrite tsv_line_body. unfold tsv_body.
   destruct (print_int_chars (r_bytes r)) as (_ & p & d & Hd & Hdd). rewrite Hd.
   apply is_digit_range in Hdd.
-  unfold chomp. rewrite !rev_app_distr. cbn [rev app].
+  unfold chomp. unfold strip_last at 2. rewrite !rev_app_distr. cbn [rev app].
   change (10 =? 10) with true. cbv iota.
-  destruct (Z.eqb_spec d 13); [lia|].
-  cbn [rev]. rewrite rev_app_distr, !rev_involutive. rewrite <- app_assoc. reflexivity.
+  cbn [rev]. rewrite rev_app_distr, !rev_involutive. rewrite <- app_assoc. cbn [app].
+  unfold strip_last. rewrite app_assoc, rev_app_distr. cbn [rev app].
+  destruct (Z.eqb_spec d 13); [lia|]. reflexivity.
 Qed.
 
 Lemma tsv_body_nonnil r : is_nil (tsv_body r) = false.
